@@ -5,7 +5,16 @@ functions symmetry_pgr, bingham_average, coaxial_index, finite_strain,
 angle_fse_simpleshear against the extracted model, which is fed the RECORDED outputs of the
 LAPACK oracle (scipy.linalg.eigh / eigvalsh are wrapped from outside, in this process);
 the oracle hypothesis eig_spec is residual-checked on every recorded call, and the matrix
-handed to LAPACK is compared with the model's scatter / left Cauchy-Green matrix."""
+handed to LAPACK is compared with the model's scatter / left Cauchy-Green matrix.
+
+Call sequences (Model_diag_session.v): the diagnostics are pure functions of the CONTENTS of
+their argument.  Sessions execute histories of calls on live ndarray objects that are modified
+in place between the calls (refill, in-place frame rotation / permutation / row sign flips,
+copies between objects, calls through views, float32 / strided / Fortran-ordered objects,
+results scribbled on by the caller); every call is compared with the model evaluated on the
+CURRENT contents, with the same call on a fresh copy, and the matrices handed to LAPACK over
+the whole history with the extracted session model.  Any dependence on the call history or on
+the identity of the object is a disagreement; its replay lists the call sequence."""
 from __future__ import annotations
 
 import itertools
@@ -18,7 +27,7 @@ import common
 import proofs
 from common import hx
 
-FILES = ["Model_diag.v", "Proofs_diag.v", "Entry_diag.v", "Extract_diag.v"]
+FILES = ["Model_diag.v", "Proofs_diag.v", "Model_diag_session.v", "Proofs_diag_session.v", "Entry_diag.v", "Extract_diag.v"]
 PROP = "Properties/C13.v"
 GROUP = "diag"
 AXES = "abc"
@@ -66,7 +75,7 @@ class Recorder:
 
 
 def lower6(S):
-    return [S[0, 0], S[1, 0], S[1, 1], S[2, 0], S[2, 1], S[2, 2]]
+    return [float(S[0, 0]), float(S[1, 0]), float(S[1, 1]), float(S[2, 0]), float(S[2, 1]), float(S[2, 2])]
 
 
 def sym_from_lower(S):
@@ -151,6 +160,10 @@ def texture(rng, kind, n):
         ms = aligned_bases()
         base = ms[int(rng.integers(len(ms)))]
         return np.repeat(base[None], n, axis=0)
+    if kind == "girdle_exact":  # a-axes exactly along x and y alternately: (P, G, R) = (0, 1, 0) for a and b, (1, 0, 0) for c
+        e = np.eye(3)
+        rz = np.array([[0.0, 1.0, 0.0], [-1.0, 0.0, 0.0], [0.0, 0.0, 1.0]])
+        return np.stack([e if i % 2 == 0 else rz for i in range(n)])
     if kind == "isotropic3":  # scatter matrix exactly the identity: excluded from coaxial_index
         e = np.eye(3)
         return np.stack([e, e[[1, 2, 0]], e[[2, 0, 1]]])
@@ -176,8 +189,8 @@ def gen_textures(chk, tier):
     out = []
     k = 0
     for _ in range(reps):
-        for kind in ("random", "clustered", "girdled", "single", "aligned"):
-            for n in (sizes if kind != "aligned" else [1, 2, 3, 4, 5, 6]):
+        for kind in ("random", "clustered", "girdled", "single", "aligned", "girdle_exact"):
+            for n in (sizes if kind not in ("aligned", "girdle_exact") else [1, 2, 3, 4, 5, 6] if kind == "aligned" else [2, 4]):
                 out.append(dict(kind=kind, n=n, os=texture(rng, kind, n), axis=AXES[k % 3],
                                 axis2=AXES[(k // 3 + k + 1) % 3], seed=int(rng.integers(1 << 30))))
                 k += 1
@@ -207,6 +220,254 @@ def gen_F(chk, tier):
 
 
 # --------------------------------------------------------------------------
+# call sequences on live objects (Model_diag_session.v)
+# --------------------------------------------------------------------------
+SESSION_FAMILIES = ("refill", "inplace-frame", "inplace-perm", "inplace-flip", "repeat-interleave",
+                    "two-objects", "views", "mixed", "float32", "strided", "fortran")
+SESSION_KINDS = ("random", "clustered", "girdled", "single", "aligned")
+FN_OF = {"pgr": "symmetry_pgr", "bingham": "bingham_average", "coaxial": "coaxial_index"}
+
+
+def row_signs(rng, n, mode):
+    """(n, 3) factors +-1 for the crystal axes (rows) of every grain"""
+    if mode == "twofold":      # the two-fold rotations about a crystal axis flip the two others
+        return np.array([np.diag(FLIPS[k]) for k in rng.integers(0, 4, n)], dtype=float).reshape(n, 3)
+    if mode == "one-row":      # o[:, r, :] *= -1 for one crystal axis of every grain
+        sg = np.ones((n, 3))
+        sg[:, int(rng.integers(3))] = -1.0
+        return sg
+    return rng.choice([-1.0, 1.0], size=(n, 3))
+
+
+def build_session(rng, family, n):
+    """one call history; every array in it is float64, the executor converts"""
+    nb = 2 if family in ("two-objects", "mixed") else 1
+    kinds = [SESSION_KINDS[int(rng.integers(len(SESSION_KINDS)))] for _ in range(4)]
+    tex = [texture(rng, k, n) for k in kinds]
+    init = [tex[0]] + ([tex[0].copy() if family == "two-objects" else tex[1]] if nb == 2 else [])
+    ax = AXES[int(rng.integers(3))]
+    ax2 = AXES[(AXCODE[ax] + 1 + int(rng.integers(2))) % 3]
+    steps = []
+
+    def c(op, b=0, axis=ax, axis2=ax2, via="same", scribble=False):
+        d = dict(op=op, b=b, axis=axis, via=via)
+        if op == "coaxial":
+            d["axis2"] = axis2
+        if op == "bingham" and scribble:
+            d["scribble"] = True
+        steps.append(d)
+
+    def trio(b=0, via="same"):
+        c("pgr", b, via=via); c("bingham", b, via=via, scribble=bool(rng.integers(2))); c("coaxial", b, via=via)
+
+    def mut(kind, b=0):
+        if kind == "fill":
+            steps.append(dict(op="fill", b=b, os=texture(rng, SESSION_KINDS[int(rng.integers(len(SESSION_KINDS)))], n)))
+        elif kind == "rotate":
+            steps.append(dict(op="rotate", b=b, Q=haar(rng)))
+        elif kind == "perm":
+            steps.append(dict(op="perm", b=b, p=[int(x) for x in rng.permutation(n)]))
+        elif kind == "flip":
+            steps.append(dict(op="flip", b=b, s=row_signs(rng, n, ("twofold", "one-row", "any")[int(rng.integers(3))])))
+        else:
+            steps.append(dict(op="copy", b=b, src=1 - b))
+
+    if family == "refill":
+        for k in range(3):
+            if k:
+                steps.append(dict(op="fill", b=0, os=tex[k]))
+            for a in AXES:
+                c("pgr", axis=a)
+            c("bingham"); c("coaxial")
+    elif family == "inplace-frame":
+        trio(); mut("rotate"); trio(); mut("rotate"); c("bingham"); c("pgr")
+    elif family == "inplace-perm":
+        trio(); mut("perm"); trio(); mut("perm"); c("bingham")
+    elif family == "inplace-flip":
+        trio()
+        for mode in ("twofold", "one-row"):
+            steps.append(dict(op="flip", b=0, s=row_signs(rng, n, mode)))
+            trio()
+    elif family == "repeat-interleave":
+        c("pgr"); c("pgr"); c("bingham", scribble=True); c("pgr", axis=ax2); c("coaxial"); c("bingham")
+        c("pgr", axis=AXES[3 - AXCODE[ax] - AXCODE[ax2]]); c("coaxial", axis=ax2, axis2=ax); c("bingham", axis=ax2); c("pgr")
+    elif family == "two-objects":
+        c("pgr", 0); c("pgr", 1); c("bingham", 1); mut("fill", 1); c("pgr", 0); c("pgr", 1); c("bingham", 1)
+        c("coaxial", 1); c("coaxial", 0); steps.append(dict(op="copy", b=0, src=1)); trio(0); mut("rotate", 1); trio(1); c("pgr", 0)
+    elif family == "views":
+        for via in ("same", "view", "rview", "copy"):
+            c("pgr", via=via)
+        c("bingham", via="list"); c("bingham", via="rview"); c("coaxial", via="view")
+        mut("fill")
+        for via in ("rview", "view", "same", "copy"):
+            c("pgr", via=via)
+        c("bingham", via="view"); c("bingham", via="list"); mut("rotate"); c("bingham", via="rview"); c("coaxial", via="rview")
+    elif family == "big":
+        c("pgr"); c("bingham"); mut("fill"); c("pgr"); c("bingham"); mut("rotate"); c("bingham"); c("coaxial")
+    else:  # mixed, float32, strided, fortran: a random walk over all operations
+        trio()
+        for _ in range(6):
+            b = int(rng.integers(nb))
+            mut(("fill", "rotate", "perm", "flip", "copy" if nb == 2 else "fill")[int(rng.integers(5))], b)
+            which = int(rng.integers(4))
+            if which == 3:
+                trio(b)
+            else:
+                c(("pgr", "bingham", "coaxial")[which], b, scribble=True)
+    return dict(family=family, n=n, nb=nb, init=init, steps=steps,
+                dtype="float32" if family == "float32" else "float64",
+                layout={"strided": "strided", "fortran": "fortran"}.get(family, "C"))
+
+
+def gen_sessions(chk, tier):
+    rng = np.random.default_rng(chk.seed + 23)
+    sizes = [1, 2, 3, 7, 20, 100] if tier == "quick" else [1, 2, 3, 5, 7, 20, 50, 100, 200]
+    out = []
+    for _ in range(1 if tier == "quick" else 4):
+        for fam in SESSION_FAMILIES:
+            for n in sizes:
+                out.append(build_session(rng, fam, n))
+    for fam, n in (("refill", 1000), ("big", 10000)) + (() if tier == "quick" else (("mixed", 3000), ("float32", 3000), ("big", 10000))):
+        out.append(build_session(rng, fam, n))
+    return out
+
+
+def describe_step(st):
+    b = f"buf{st['b']}"
+    if st["op"] in FN_OF:
+        arg = {"same": b, "view": b + "[:]", "rview": f"rev_{b} (= {b}[::-1], created at the start)", "copy": b + ".copy()",
+               "list": b + ".tolist()"}[st.get("via", "same")]
+        ax = f"axis1={st['axis']!r}, axis2={st['axis2']!r}" if st["op"] == "coaxial" else f"axis={st['axis']!r}"
+        return f"{FN_OF[st['op']]}({arg}, {ax})" + ("; result[...] = 7.0" if st.get("scribble") else "")
+    return {"fill": f"{b}[...] = <another texture>", "rotate": f"np.matmul({b}, Q.T, out={b})", "perm": f"{b}[...] = {b}[p]",
+            "flip": f"{b} *= signs[:, :, None]", "copy": f"{b}[...] = buf{st.get('src')}"}[st["op"]]
+
+
+def make_buffers(sess):
+    dt = np.float32 if sess["dtype"] == "float32" else np.float64
+    bufs = []
+    for a in sess["init"]:
+        a = np.asarray(a, dtype=float)
+        if sess["layout"] == "strided":
+            big = np.zeros((2 * len(a) + 1, 3, 3), dtype=dt)
+            buf = big[1::2]
+            buf[...] = a
+        elif sess["layout"] == "fortran":
+            buf = np.asfortranarray(a.astype(dt))
+        else:
+            buf = np.array(a, dtype=dt)
+        bufs.append(buf)
+    return bufs
+
+
+def exec_session(dg, sess, rec=None):
+    """runs the history in this process on the same ndarray objects; one event per call"""
+    bufs = make_buffers(sess)
+    rviews = [b[::-1] for b in bufs]
+    fns = {"pgr": dg.symmetry_pgr, "bingham": dg.bingham_average, "coaxial": dg.coaxial_index}
+    events = []
+
+    def run1(f, *a, **kw):
+        if rec is not None:
+            return call(rec, f, *a, **kw)
+        try:
+            return ("OK", f(*a, **kw), [])
+        except Exception as e:  # noqa: BLE001
+            return ("ERR", common.exc_code(e), [])
+
+    for i, st in enumerate(sess["steps"]):
+        buf = bufs[st["b"]]
+        op = st["op"]
+        if op == "fill":
+            buf[...] = st["os"]
+        elif op == "rotate":
+            np.matmul(buf, np.asarray(st["Q"]).T.astype(buf.dtype), out=buf)
+        elif op == "perm":
+            buf[...] = buf[np.asarray(st["p"], dtype=int)]
+        elif op == "flip":
+            buf *= np.asarray(st["s"]).astype(buf.dtype)[:, :, None]
+        elif op == "copy":
+            buf[...] = bufs[st["src"]]
+        else:
+            via = st.get("via", "same")
+            arg = {"same": lambda: buf, "view": lambda: buf[:], "rview": lambda: rviews[st["b"]],
+                   "copy": lambda: buf.copy(), "list": lambda: buf.tolist()}[via]()
+            contents = np.array(arg, dtype=float)
+            kw = dict(axis1=st["axis"], axis2=st["axis2"]) if op == "coaxial" else dict(axis=st["axis"])
+            r = run1(fns[op], arg, **kw)
+            res = (r[0], np.array(r[1], dtype=float, copy=True) if r[0] == "OK" else r[1])
+            if st.get("scribble") and r[0] == "OK" and isinstance(r[1], np.ndarray):
+                try:
+                    r[1][...] = 7.0     # the caller owns the result
+                except ValueError:
+                    pass
+            modified = not np.array_equal(np.array(arg, dtype=float), contents, equal_nan=True)
+            fresh_arg = np.array(np.asarray(arg), copy=True)
+            f = run1(fns[op], fresh_arg, **kw)
+            fresh = (f[0], np.array(f[1], dtype=float, copy=True) if f[0] == "OK" else f[1])
+            events.append(dict(step=i, op=op, b=st["b"], axis=st["axis"], axis2=st.get("axis2"), via=via,
+                               contents=contents, res=res, calls=r[2], fresh=fresh, fresh_calls=f[2], modified=modified))
+    return events
+
+
+def session_line(sess, memo=0):
+    """the history for the extracted session model; calls through the reversed view are left out"""
+    n = sess["n"]
+    codes, fl = [], []
+    for a in sess["init"]:
+        fl += flat(a)
+    for st in sess["steps"]:
+        op, b = st["op"], st["b"]
+        if op == "fill":
+            codes += [0, b]; fl += flat(st["os"])
+        elif op == "rotate":
+            codes += [1, b]; fl += flat(st["Q"])
+        elif op == "perm":
+            codes += [2, b] + list(st["p"])
+        elif op == "flip":
+            codes += [3, b]; fl += flat(st["s"])
+        elif op == "copy":
+            codes += [4, b, st["src"]]
+        elif st.get("via") == "rview":
+            continue
+        elif op == "coaxial":
+            codes += [7, b, AXCODE[st["axis"]], AXCODE[st["axis2"]]]
+        else:
+            codes += [5 if op == "pgr" else 6, b, AXCODE[st["axis"]]]
+    return common.model_line("session", [memo, n, sess["nb"]] + codes, fl)
+
+
+def sess_to_json(sess):
+    def enc(st):
+        d = dict(st)
+        for k in ("os", "Q", "s"):
+            if k in d:
+                d[k] = [hx(x) for x in np.asarray(d[k], dtype=float).reshape(-1)]
+        return d
+    return dict(call="session", family=sess["family"], n_grains=sess["n"], n_objects=sess["nb"], dtype=sess["dtype"],
+                layout=sess["layout"], call_sequence=[f"{i}: {describe_step(st)}" for i, st in enumerate(sess["steps"])],
+                init=[[hx(x) for x in np.asarray(a, dtype=float).reshape(-1)] for a in sess["init"]],
+                steps=[enc(st) for st in sess["steps"]])
+
+
+def sess_from_json(i):
+    u = common.unhx
+    n = i["n_grains"]
+
+    def dec(st):
+        d = dict(st)
+        if "os" in d:
+            d["os"] = np.array([u(x) for x in d["os"]]).reshape(n, 3, 3)
+        if "Q" in d:
+            d["Q"] = np.array([u(x) for x in d["Q"]]).reshape(3, 3)
+        if "s" in d:
+            d["s"] = np.array([u(x) for x in d["s"]]).reshape(n, 3)
+        return d
+    return dict(family=i.get("family", "replay"), n=n, nb=i["n_objects"], dtype=i["dtype"], layout=i["layout"],
+                init=[np.array([u(x) for x in a]).reshape(n, 3, 3) for a in i["init"]], steps=[dec(st) for st in i["steps"]])
+
+
+# --------------------------------------------------------------------------
 # implementation calls (recorded)
 # --------------------------------------------------------------------------
 def call(rec, f, *a, **kw):
@@ -233,6 +494,10 @@ class Run:
 
     def add(self, entry, ints, floats, expected, meta, rtol=RTOL, scale=1.0):
         self.lines.append(common.model_line(entry, ints, floats))
+        self.expect.append((expected, meta, rtol, scale))
+
+    def add_line(self, line, expected, meta, rtol=RTOL, scale=1.0):
+        self.lines.append(line)
         self.expect.append((expected, meta, rtol, scale))
 
     def compare(self):
@@ -296,7 +561,8 @@ def correspondence(chk, tier):
                     bad.append((meta, f"implementation raised {r[1]}"))
                 chk.note_case(("pgr", ax, op, os.tobytes()), nontrivial=n > 1 and t["kind"] != "single",
                               sample=dict(function="symmetry_pgr", kind=t["kind"], n_grains=n, op=op, axis=ax,
-                                          result=[float(x) for x in r[1]] if r[0] == "OK" else r[1]))
+                                          result=[float(x) for x in r[1]] if r[0] == "OK" else r[1])
+                              if len(chk.cov["samples"]) < 2 else None)
                 # bingham_average
                 r = call(rec, dg.bingham_average, os, axis=ax)
                 meta = dict(meta0, function="bingham_average"); bump("function", "bingham_average")
@@ -316,15 +582,132 @@ def correspondence(chk, tier):
                 elif r[0] == "ERR":
                     bad.append((meta, f"implementation raised {r[1]}"))
                 chk.note_case(("coaxial", ax, ax2, op, os.tobytes()), nontrivial=n > 1 and t["kind"] != "isotropic3")
-        # invalid axis specifiers
+        # call sequences on live objects (see Model_diag_session.v)
+        hist.update({k: hist.get(k, {}) for k in ("session_family", "session_step", "session_via", "session_storage",
+                                                   "session_inplace_ops_before_call", "session_grains")})
+        NAMES = {"pgr": ["eigvalsh"], "bingham": ["eigh"], "coaxial": ["eigvalsh", "eigvalsh"]}
+        for sess in gen_sessions(chk, tier):
+            fam, n = sess["family"], sess["n"]
+            bump("session_family", fam); bump("session_grains", n); bump("session_storage", sess["dtype"] + "/" + sess["layout"])
+            for st in sess["steps"]:
+                bump("session_step", st["op"])
+            srt = 1e-5 if sess["dtype"] == "float32" else RTOL   # float32 objects: the six sums are accumulated in float32
+            events = exec_session(dg, sess, rec)
+            seq = [f"{i}: {describe_step(st)}" for i, st in enumerate(sess["steps"])]
+            trace_ok, trace_expect = sess["dtype"] == "float64" and n <= 200, []
+            for e in events:
+                op, ax, ax2 = e["op"], e["axis"], e["axis2"]
+                nmut = sum(1 for st in sess["steps"][:e["step"]] if st["op"] not in FN_OF)
+                bump("session_via", e["via"]); bump("session_inplace_ops_before_call", min(nmut, 6)); bump("function", FN_OF[op] + ":session")
+                fl = flat(e["contents"])
+                meta = dict(kind="session:" + fam, n=n, op=f"step {e['step']}", axis=ax, axis2=ax2, function=FN_OF[op], via=e["via"],
+                            session=sess, step=e["step"], call_sequence=seq[:e["step"] + 1])
+                r = e["res"]
+                chk.note_case(("session", fam, op, ax, ax2, e["via"], nmut, e["contents"].tobytes()), nontrivial=n > 1 and nmut > 0,
+                              sample=dict(function=FN_OF[op] + " in a call sequence", family=fam, n_grains=n, step=e["step"],
+                                          call_sequence=seq[:e["step"] + 1][-4:],
+                                          result=[float(x) for x in np.atleast_1d(r[1])] if r[0] == "OK" else r[1])
+                              if (e["step"] > 3 and n in (3, 7) and len(chk.cov["samples"]) < 4) else None)
+                if r[0] != "OK":
+                    bad.append((meta, f"implementation raised {r[1]}")); trace_ok = False
+                    continue
+                if not check_calls(e["calls"], meta, NAMES[op]):
+                    trace_ok = False
+                    continue
+                cs = e["calls"]
+                for c, a in zip(cs, (ax, ax2)):
+                    run.add("scatter", [AXCODE[a], n], fl, ("OK", lower6(c[1])),
+                            dict(meta, what=f"matrix passed to {c[0]} vs the scatter matrix of the CURRENT contents"), rtol=srt, scale=max(1.0, n))
+                    if e["via"] != "rview":
+                        trace_expect += lower6(c[1])
+                if op == "pgr":
+                    run.add("pgr", [AXCODE[ax], n], fl + list(cs[0][4]), ("OK", list(r[1])), meta)
+                elif op == "bingham":
+                    run.add("bingham", [AXCODE[ax], n], fl + list(cs[0][4][0]) + flat(cs[0][4][1]), ("OK", list(r[1])), meta)
+                else:
+                    run.add("coaxial", [AXCODE[ax], AXCODE[ax2], n], fl + list(cs[0][4]) + list(cs[1][4]), ("OK", [float(r[1])]), meta)
+                if e["modified"]:
+                    bad.append((meta, "the call modified its argument"))
+                # purity: the same call on a fresh copy of the contents
+                f = e["fresh"]
+                if f[0] != "OK" or [c[0] for c in e["fresh_calls"]] != NAMES[op]:
+                    bad.append((meta, f"the same call on a fresh copy of the argument: {f[:2] if f[0] != 'OK' else [c[0] for c in e['fresh_calls']]}"))
+                    continue
+                for c, c2 in zip(cs, e["fresh_calls"]):
+                    if not np.allclose(c[1], c2[1], rtol=0, atol=1e-12 * max(1.0, n), equal_nan=True):
+                        bad.append((meta, f"matrix passed to {c[0]} depends on the call history / the identity of the object: "
+                                          f"{lower6(c[1])} for the live object, {lower6(c2[1])} for a fresh copy of its contents"))
+                same = (np.allclose(r[1], f[1], rtol=0, atol=1e-12, equal_nan=True) if op != "bingham"
+                        else same_axis(np.asarray(r[1]), np.asarray(f[1]), 1e-12))
+                if all(np.array_equal(c[1], c2[1]) for c, c2 in zip(cs, e["fresh_calls"])) and not same:
+                    bad.append((meta, f"result {np.atleast_1d(r[1]).tolist()} for the live object, {np.atleast_1d(f[1]).tolist()} for a fresh copy of its contents"))
+            if trace_ok and trace_expect:
+                run.add_line(session_line(sess), ("OK", trace_expect),
+                             dict(kind="session:" + fam, n=n, op="whole history", function="session", session=sess, call_sequence=seq,
+                                  what="session trace"), scale=max(1.0, n))
+        # invalid axis specifiers (match statement: anything but exactly "a" / "b" / "c" raises ValueError)
         os = haar(np.random.default_rng(chk.seed + 3), 4)
+        BADAX = ("d", "x", "", "A", " a", "a ", "ab", None, 0)
         for fn, entry in ((dg.symmetry_pgr, "pgr"), (dg.bingham_average, "bingham")):
-            for badax in ("d", "x", ""):
+            for badax in BADAX:
                 r = call(rec, fn, os, axis=badax)
                 run.add(entry, [7, 4], flat(os) + [0.0] * 12, ("ERR", r[1]) if r[0] == "ERR" else ("OK", []),
                         dict(function=fn.__name__, axis=badax, os=os, n=4, kind="random", op="invalid-axis"))
                 bump("function", fn.__name__ + ":invalid-axis")
                 chk.note_case((entry, badax), nontrivial=True)
+        for badax in BADAX:
+            for pos in (0, 1):
+                kw = dict(axis1=badax, axis2="a") if pos == 0 else dict(axis1="b", axis2=badax)
+                r = call(rec, dg.coaxial_index, os, **kw)
+                run.add("coaxial", [7, 0, 4] if pos == 0 else [1, 7, 4], flat(os) + [0.0] * 6,
+                        ("ERR", r[1]) if r[0] == "ERR" else ("OK", []),
+                        dict(function="coaxial_index", axis=repr(kw), os=os, n=4, kind="random", op="invalid-axis"))
+                bump("function", "coaxial_index:invalid-axis")
+                chk.note_case(("coaxial", badax, pos), nontrivial=True)
+        # legal but unusual spellings of a valid axis (numpy string scalar)
+        for k, a in enumerate(AXES):
+            r = call(rec, dg.symmetry_pgr, os, axis=np.str_(a))
+            meta = dict(function="symmetry_pgr", axis=a, os=os, n=4, kind="random", op="axis as np.str_")
+            bump("function", "symmetry_pgr:np.str_ axis")
+            if r[0] == "OK" and check_calls(r[2], meta, ["eigvalsh"]):
+                run.add("scatter", [k, 4], flat(os), ("OK", lower6(r[2][0][1])), dict(meta, what="matrix passed to eigvalsh"), scale=4.0)
+                run.add("pgr", [k, 4], flat(os) + list(r[2][0][4]), ("OK", list(r[1])), meta)
+            else:
+                bad.append((meta, f"implementation: {r[:2]}"))
+            chk.note_case(("pgr-npstr", a), nontrivial=True)
+        # degenerate / malformed stream: no grains, all-zero matrices, matrices that are not rotations
+        # (the formulas are still those of the model; P+G+R = 1 and the ranges are not claimed here)
+        hist.setdefault("degenerate", {})
+        drng = np.random.default_rng(chk.seed + 5)
+        for dk, dos in (("empty", np.zeros((0, 3, 3))), ("zero-matrices", np.zeros((3, 3, 3))),
+                        ("gaussian-rows", drng.normal(0, 1, (5, 3, 3))), ("scaled-rotations", 3.0 * haar(drng, 6)),
+                        ("one-grain-rank-one", np.ones((1, 3, 3)))):
+            n = len(dos)
+            fl = flat(dos)
+            for k, a in enumerate(AXES):
+                bump("degenerate", dk)
+                meta0 = dict(kind="degenerate:" + dk, n=n, op="base", axis=a, axis2=AXES[(k + 1) % 3])
+                with np.errstate(all="ignore"):
+                    r = call(rec, dg.symmetry_pgr, dos, axis=a)
+                    rb = call(rec, dg.bingham_average, dos, axis=a)
+                    rc = call(rec, dg.coaxial_index, dos, axis1=a, axis2=AXES[(k + 1) % 3])
+                meta = dict(meta0, function="symmetry_pgr")
+                if r[0] == "OK" and check_calls(r[2], meta, ["eigvalsh"]):
+                    run.add("scatter", [k, n], fl, ("OK", lower6(r[2][0][1])), dict(meta, what="matrix passed to eigvalsh"), scale=max(1.0, n))
+                    run.add("pgr", [k, n], fl + list(r[2][0][4]), ("OK", list(r[1])), meta)
+                elif r[0] == "ERR":
+                    bad.append((meta, f"implementation raised {r[1]}"))
+                meta = dict(meta0, function="bingham_average")
+                if rb[0] == "OK" and check_calls(rb[2], meta, ["eigh"]):
+                    run.add("bingham", [k, n], fl + list(rb[2][0][4][0]) + flat(rb[2][0][4][1]), ("OK", list(rb[1])), meta)
+                elif rb[0] == "ERR":
+                    bad.append((meta, f"implementation raised {rb[1]}"))
+                meta = dict(meta0, function="coaxial_index")
+                if rc[0] == "OK" and check_calls(rc[2], meta, ["eigvalsh", "eigvalsh"]):
+                    run.add("coaxial", [k, (k + 1) % 3, n], fl + list(rc[2][0][4]) + list(rc[2][1][4]), ("OK", [float(rc[1])]), meta)
+                elif rc[0] == "ERR":
+                    bad.append((meta, f"implementation raised {rc[1]}"))
+                chk.note_case(("degenerate", dk, a), nontrivial=False)
         # finite strain
         for c in gen_F(chk, tier):
             F, Q = c["F"], c["Q"]
@@ -341,7 +724,38 @@ def correspondence(chk, tier):
                     bad.append((meta, f"implementation raised {r[1]}"))
                 chk.note_case(("fse", op, G.tobytes()), nontrivial=True,
                               sample=dict(function="finite_strain", kind=c["kind"], op=op, F=[float(x) for x in G.reshape(-1)],
-                                          result=[float(r[1][0])] + [float(x) for x in r[1][1]] if r[0] == "OK" else r[1]))
+                                          result=[float(r[1][0])] + [float(x) for x in r[1][1]] if r[0] == "OK" else r[1])
+                              if len(chk.cov["samples"]) < 6 else None)
+        # finite strain on ONE deformation-gradient object that is modified in place between the calls; the caller
+        # scribbles on every returned axis (it owns the result)
+        hist.setdefault("fse_sequence", {})
+        for c in gen_F(chk, tier)[:12 if tier == "quick" else 60]:
+            G, Q = np.array(c["F"], copy=True), c["Q"]
+            for op in ("first call", "repeat", "in place F[...] = F.Q", "in place F[...] = Q.F", "in place F *= 2", "repeat"):
+                if op.endswith("F.Q"):
+                    G[...] = G @ Q
+                elif op.endswith("Q.F"):
+                    G[...] = Q @ G
+                elif op.endswith("*= 2"):
+                    G *= 2.0
+                cur = G.copy()
+                r = call(rec, dg.finite_strain, G)
+                meta = dict(function="finite_strain", kind=c["kind"], op="sequence: " + op, F=cur)
+                bump("fse_sequence", op); bump("function", "finite_strain:sequence")
+                if r[0] == "OK" and check_calls(r[2], meta, ["eigh"]):
+                    k = r[2][0]
+                    sc = max(1.0, float(np.abs(k[1]).max()))
+                    run.add("lcg", [], flat(cur), ("OK", lower6(k[1])), dict(meta, what="matrix passed to eigh vs F.F^T of the CURRENT contents"), scale=sc)
+                    run.add("fse", [], flat(cur) + list(k[4][0]) + flat(k[4][1]), ("OK", [float(r[1][0])] + [float(x) for x in r[1][1]]), meta)
+                    try:
+                        r[1][1][...] = 7.0
+                    except ValueError:
+                        pass
+                    if not np.array_equal(G, cur):
+                        bad.append((meta, "finite_strain modified its argument"))
+                elif r[0] == "ERR":
+                    bad.append((meta, f"implementation raised {r[1]}"))
+                chk.note_case(("fse-seq", op, cur.tobytes()), nontrivial=op != "first call")
         # closed-form angle helper
         rng = np.random.default_rng(chk.seed + 11)
         for s in [0.0, 0.5, 1.0, 1e-9, 1e6] + list(rng.uniform(0, 10, 25 if tier == "quick" else 300)):
@@ -350,7 +764,15 @@ def correspondence(chk, tier):
                     dict(function="angle_fse_simpleshear", strain=float(s)))
             bump("function", "angle_fse_simpleshear")
             chk.note_case(("angle", float(s)), nontrivial=s != 0)
-    bad += run.compare()
+    cmp_bad = run.compare()
+    for m, d in cmp_bad:
+        if m.get("what") == "session trace":      # does the implementation behave like the refuted memoising variant?
+            exp = next(e for e, mm, _, _ in run.expect if mm is m)
+            mm = common.run_model([session_line(m["session"], memo=1)], group=GROUP)[0]
+            if mm[0] == "OK" and common.vec_close([x / max(1.0, m["n"]) for x in exp[1]], [x / max(1.0, m["n"]) for x in mm[1]], rtol=RTOL)[0]:
+                m["note"] = ("the matrices handed to LAPACK over this history are those of the model variant that remembers the scatter "
+                             "matrix per (object, row) and never invalidates it (refuted: C13_session_memo_refuted)")
+    bad += cmp_bad
     chk.cov["oracle_calls_residual_checked"] = spec_checked
     chk.cov["traces_validated_against_impl"] = len(run.lines)
     return bad
@@ -415,6 +837,120 @@ def oracle_texture(dg, os, ax, ax2, rng):
             if not same_axis(b2, tgt, 1e-7 / gap):
                 fails.append(f"Bingham mean does not {'co-rotate' if Q is not None else 'stay fixed'} under {op}")
     return fails
+
+
+def ref_pgr(os, row):
+    w = np.linalg.eigvalsh(ref_scatter(os, row))
+    return np.array([(w[2] - w[1]), 2 * (w[1] - w[0]), 3 * w[0]]) / w.sum()
+
+
+def oracle_session(dg, sess):
+    """the property read on a call sequence: every call must give the diagnostics of the CURRENT contents of
+    its argument (ranges, P+G+R = 1, principal eigenvector), the same as for a fresh copy; P, G, R and the BA
+    index of an object are unchanged by in-place frame rotations / reorderings / sign relabellings of that
+    object and its Bingham mean co-rotates (stays) up to sign.  Returns (failures, index of the first failing step)."""
+    fails, first = [], None
+    ftol = 1e-4 if sess["dtype"] == "float32" else 1e-8
+    tol = 1e-9 if sess["dtype"] != "float32" else 1e-5
+    with np.errstate(all="ignore"):
+        events = exec_session(dg, sess)
+    # per object: epoch (changes at fill / copy) and the frame rotation accumulated since the epoch began
+    epoch = [0] * sess["nb"]
+    Qacc = [np.eye(3) for _ in range(sess["nb"])]
+    seen = {}
+    ev = {e["step"]: e for e in events}
+    for i, st in enumerate(sess["steps"]):
+        b = st["b"]
+        if st["op"] in ("fill", "copy"):
+            epoch[b] += 1 + i * 1000
+            Qacc[b] = np.eye(3)
+            continue
+        if st["op"] == "rotate":
+            Qacc[b] = np.asarray(st["Q"]) @ Qacc[b]
+            continue
+        if st["op"] not in FN_OF:
+            continue
+        e = ev[i]
+        os, op = e["contents"], e["op"]
+        row = AXCODE[e["axis"]]
+        n = len(os)
+        where = f"step {i} [{describe_step(st)}]"
+        mine = []
+        if e["res"][0] != "OK":
+            mine.append(f"{where}: raised {e['res'][1]}")
+        else:
+            val = e["res"][1]
+            S = ref_scatter(os, row)
+            w, _ = np.linalg.eigh(S)
+            gap = (w[2] - w[1]) / max(w[2], 1e-300)
+            aniso = True
+            if op == "pgr":
+                exp = ref_pgr(os, row)
+                if np.any(val < -tol) or np.any(val > 1 + tol) or abs(val.sum() - 1) > tol:
+                    mine.append(f"{where}: P, G, R = {val.tolist()} not in [0, 1] / not summing to 1")
+                if np.abs(exp - val).max() > ftol:
+                    mine.append(f"{where}: P, G, R = {val.tolist()} but the scatter matrix of the {e['axis']}-axes of the current contents gives {exp.tolist()}")
+            elif op == "bingham":
+                if abs(val @ val - 1) > tol:
+                    mine.append(f"{where}: Bingham mean is not a unit vector (|b|^2 = {val @ val!r})")
+                if np.abs(S @ val - w[2] * val).max() > ftol * max(1.0, w[2]):
+                    mine.append(f"{where}: Bingham mean {val.tolist()} is not the principal eigenvector of the scatter matrix of the current contents")
+            else:
+                row2 = AXCODE[e["axis2"]]
+                w2 = np.linalg.eigvalsh(ref_scatter(os, row2))
+                aniso = (w[2] - w[0]) > 1e-3 * n and (w2[2] - w2[0]) > 1e-3 * n
+                if aniso:
+                    p1, p2 = ref_pgr(os, row), ref_pgr(os, row2)
+                    exp = 0.5 * (2 - p1[0] / (p1[1] + p1[0]) - p2[1] / (p2[1] + p2[0]))
+                    v = float(val)
+                    if not (-tol <= v <= 1 + tol):
+                        mine.append(f"{where}: coaxial index {v!r} outside [0, 1]")
+                    if abs(v - exp) > 10 * ftol:
+                        mine.append(f"{where}: coaxial index {v!r} but the current contents give {exp!r}")
+            # a fresh copy of the same values
+            f = e["fresh"]
+            if f[0] != "OK":
+                mine.append(f"{where}: the same call on a fresh copy raised {f[1]}")
+            elif op == "bingham":
+                if gap > 1e-6 and not same_axis(val, f[1], 1e-7 / gap):
+                    mine.append(f"{where}: Bingham mean {val.tolist()} for the live object, {f[1].tolist()} for a fresh copy of its contents")
+            elif aniso and not np.allclose(val, f[1], rtol=0, atol=ftol, equal_nan=True):
+                mine.append(f"{where}: {np.atleast_1d(val).tolist()} for the live object, {np.atleast_1d(f[1]).tolist()} for a fresh copy of its contents")
+            if e["modified"]:
+                mine.append(f"{where}: the call modified its argument")
+            # objectivity along the history of the object (same contents up to frame / order / signs)
+            key = (b, op, e["axis"], e["axis2"], epoch[b])
+            if key not in seen:
+                seen[key] = (i, val, Qacc[b].copy(), gap)
+            else:
+                j, v0, Q0, gap0 = seen[key]
+                Qrel = Qacc[b] @ Q0.T
+                if op == "bingham":
+                    if gap0 > 1e-6 and not same_axis(val, Qrel @ v0, 1e-7 / gap0 + 100 * tol):
+                        mine.append(f"{where}: Bingham mean does not co-rotate / stay fixed under the in-place frame rotations, reorderings and sign "
+                                    f"relabellings since step {j}: {val.tolist()} vs +-{(Qrel @ v0).tolist()}")
+                elif aniso and not np.allclose(val, v0, rtol=0, atol=10 * ftol, equal_nan=True):
+                    mine.append(f"{where}: {FN_OF[op]} changed from {np.atleast_1d(v0).tolist()} (step {j}) to {np.atleast_1d(val).tolist()} although the object was only "
+                                f"rotated / reordered / sign-relabelled in place in between")
+        if mine and first is None:
+            first = i
+        fails += mine
+    return fails, first
+
+
+def minimise_session(dg, sess, first):
+    """smallest history (greedy) that still fails: cut after the first failing call, then drop steps one by one"""
+    cur = dict(sess, steps=list(sess["steps"][:first + 1]))
+    if not oracle_session(dg, cur)[0]:
+        return sess
+    k = len(cur["steps"]) - 2
+    while k >= 0:
+        cand = dict(cur, steps=cur["steps"][:k] + cur["steps"][k + 1:])
+        if oracle_session(dg, cand)[0]:
+            cur = cand
+        k -= 1
+    return cur
+
 
 
 def oracle_F(dg, ut, F, Q):
@@ -484,6 +1020,24 @@ def search(chk, extra=()):
         fails = oracle_texture(dg, os, ax, ax2, np.random.default_rng(chk.seed + 2))
         if fails:
             add(dict(call="texture", orientations=[hx(x) for x in os.reshape(-1)], n_grains=len(os), axis=ax, axis2=ax2), fails)
+    # call sequences: the histories that disagreed, then small histories of every family
+    spool, ids = [], set()
+    for m in extra:
+        if "session" in m and id(m["session"]) not in ids and m["session"]["n"] <= 200:
+            ids.add(id(m["session"]))
+            spool.append(m["session"])
+    spool.sort(key=lambda q: q["n"] * len(q["steps"]))
+    srng = np.random.default_rng(chk.seed + 29)
+    for n in (2, 5, 30):
+        for fam in SESSION_FAMILIES:
+            spool.append(build_session(srng, fam, n))
+    for sess in spool:
+        if len(found) >= 3:
+            break
+        fails, first = oracle_session(dg, sess)
+        if fails:
+            small = minimise_session(dg, sess, first)
+            add(sess_to_json(small), oracle_session(dg, small)[0] or fails)
     fpool = [(m["F"], haar(rng)) for m in extra if "F" in m]
     fpool += [(c["F"], c["Q"]) for c in gen_F(chk, "quick")]
     for F, Q in fpool:
@@ -503,13 +1057,22 @@ def run(chk):
         "hand-written Model_diag.v (scatter matrix, P/G/R, coaxial index, Bingham mean, finite strain, angle helper), tied to the source by this differential run (tie H)",
         "LAPACK (scipy.linalg.eigh / eigvalsh) is an oracle: theorems assume vals_spec / eig_spec (ascending eigenvalues, characteristic polynomial, S v = lambda v, orthonormal v); the harness checks the residuals of every recorded call (<= 1e-10 |S|) and that the matrix given to LAPACK equals the model's matrix",
         "np.sum / matmul accumulate in a different order than the model's left-to-right sums (compared to 1e-10)",
+        "hand-written Model_diag_session.v (call histories on live objects modified in place); tied by executing the same histories in one Python process on the same ndarray objects: matrices handed to LAPACK vs the extracted `run false`, every result vs the one-call entries on the current contents and vs the same call on a fresh copy; NumPy's in-place operations (slice assignment, matmul out=, *=) are trusted to do what the model's fill / rotate / permute / flip say (the contents are read back and the model's own state evolution is compared to 1e-10); float32 objects: sums accumulated in float32, compared to 1e-5",
     ]
     chk.cov["rule"] = ("textures: {random (Haar), clustered, girdled, single orientation} x n_grains in {1,2,3,7,20,100,1000,10000} "
                        "[thorough: more sizes, 4 repetitions] x {as generated, frame rotated by a Haar Q, permuted, two-fold relabelled per grain}, "
                        "axes a/b/c cycled; each texture variant is passed to symmetry_pgr, bingham_average and coaxial_index (2 axes); invalid axis strings; "
                        "deformation gradients: {random Gaussian, near singular (sigma_3 down to 1e-9), simple shear, symmetric stretch} x {F, F.Q, Q.F}; "
                        "angle helper on strains in [0, 10] and extremes.  distinct = distinct (function, axis, op, input bytes); "
-                       "non-trivial = more than one grain and not a single-orientation texture for P/G/R (not exactly isotropic for the coaxial index), every F")
+                       "non-trivial = more than one grain and not a single-orientation texture for P/G/R (not exactly isotropic for the coaxial index), every F.  "
+                       "Exact boundary textures: aligned (P = 1), girdle_exact (a-axes along x and y alternately: G = 1), isotropic3 (R = 1).  "
+                       "Call sequences (sessions): families {refill one buffer with successive textures, in-place frame rotation (np.matmul out=), in-place permutation, "
+                       "in-place row sign flips (two-fold, one crystal axis, arbitrary), repeated / interleaved calls and different axes on one object, two objects with equal contents and "
+                       "copies between them, calls through views / a persistent reversed view / copies / lists, random walks, float32, strided and Fortran-ordered objects} "
+                       "x n_grains in {1,2,3,7,20,100} + 1000 + 10000; every call in a history is one case (distinct = function, axes, via, number of in-place operations before the call, "
+                       "contents bytes; non-trivial = more than one grain and at least one in-place modification of an object before the call); the caller overwrites returned arrays.  "
+                       "finite_strain on one F object modified in place (F.Q, Q.F, *= 2) with repeated calls.  Invalid / unusual axis specifiers (upper case, whitespace, None, 0, np.str_) for all three "
+                       "functions incl. both coaxial arguments.  Degenerate stream (histogram `degenerate`): no grains, zero matrices, Gaussian rows, scaled rotations, rank-one grain (formulas only).")
     bad = []
     if br.drivers.get(GROUP, 1) is None:
         bad = correspondence(chk, chk.tier)
@@ -517,7 +1080,14 @@ def run(chk):
     if ok and not bad:
         return
     found = search(chk, extra=[m for m, _ in bad])
-    dis = [{k: v for k, v in m.items() if k not in ("os", "F")} | {"detail": d} for m, d in bad[:5]]
+    # up to 6 disagreements, one per (function, kind of disagreement)
+    shown, sigs = [], set()
+    for m, d in sorted(bad, key=lambda md: 0 if md[0].get("note") else 1):
+        sig = (m.get("function"), m.get("what"), re.sub(r"[-+\d.e\[\], ]+", "#", d)[:30])
+        if sig not in sigs and len(shown) < 6:
+            sigs.add(sig)
+            shown.append((m, d))
+    dis = [{k: v for k, v in m.items() if k not in ("os", "F", "session")} | {"detail": d[:600]} for m, d in shown]
     if found:
         for payload, fails in found:
             chk.replay({"kind": "property-violation", "input": payload, "observed": fails,
@@ -541,6 +1111,8 @@ def replay(d):
     if i["call"] == "texture":
         os = np.array([u(x) for x in i["orientations"]]).reshape(i["n_grains"], 3, 3)
         fails = oracle_texture(dg, os, i["axis"], i["axis2"], np.random.default_rng(d.get("seed", 0) + 2))
+    elif i["call"] == "session":
+        fails = oracle_session(dg, sess_from_json(i))[0]
     elif i["call"] == "finite_strain":
         fails = oracle_F(dg, ut, np.array([u(x) for x in i["F"]]).reshape(3, 3), np.array([u(x) for x in i["Q"]]).reshape(3, 3))
     else:
